@@ -51,7 +51,7 @@ def PC.mwPost : PC → Option MW
   | .usReLd r _ | .usReCas r _ _ | .usFinLd r _ | .usFinCas r _ _ | .usWakeSt r _ _ | .usWakeV r _ _ => r.mw?
   | .mwRelLd c | .mwRelCas c _ _ | .mwWaitLd c
   | .mwSem c | .mwPdRet c _ | .mwNotify c | .mwLd244 c | .mwLd255 c
-  | .mtLd c | .mtCasAcq c _ | .mtCasWW c _ | .mtLdW c _ | .mtLdRc c _ | .mtRmLd c _ | .mtRmCas c _ _ | .mtStW c _ | .mtStRel c _ _ => some c
+  | .mtLd c | .mtCasAcq c _ | .mtCasWW c _ | .mtLdWk c _ | .mtLdW c _ | .mtLdRc c _ | .mtRmLd c _ | .mtRmCas c _ _ | .mtStW c _ | .mtStRel c _ _ => some c
   | _ => none
 
 /-- The scan locals at mu.c:399 (spinlock being re-acquired after an inner loop). -/
